@@ -114,9 +114,24 @@ def raw_value(slot, v, D):
     return int(x) if x.denominator == 1 else float(x)
 
 
-def build_results(slots, R, D):
-    """R = {"E": [entities], "v": [value over D or NA per slot]} -> results dict (GlobalStats.as_dict() layout)."""
+PLAIN_NAMING = {"t1": "t1", "o1": "op1", "t2": "t2", "o2": "op2", "rev": False}
+
+
+def task_record(naming, e):
+    """op_metrics record header of entity e under a naming mode of Compare.tla (NamingSeq): "" = no "task" key at all."""
+    rec = {}
+    if naming["t%d" % e] != "":
+        rec["task"] = naming["t%d" % e]
+    rec["operation"] = naming["o%d" % e]
+    if rec.get("task", rec["operation"]) != "t%d" % e:
+        raise tlc.MachineryError("naming mode does not name entity %d as task t%d" % (e, e))
+    return rec
+
+
+def build_results(slots, R, D, naming=None):
+    """R = {"E": [entities], "nm": naming mode, "v": [value over D or NA per slot]} -> results dict (GlobalStats.as_dict() layout)."""
     E = sorted(R["E"])
+    nm = (naming or [PLAIN_NAMING])[R.get("nm", 0)]
     res = {"op_metrics": [], "ml_processing_time": []}
     for k in ("total_time", "indexing_throttle_time", "merge_time", "merge_throttle_time", "refresh_time", "flush_time"):
         res[k + "_per_shard"] = {}
@@ -124,8 +139,8 @@ def build_results(slots, R, D):
         res[key] = []
     for key in DISK_KEY.values():
         res[key] = []
-    tasks = {e: {"task": "t%d" % e, "operation": "op%d" % e, "throughput": {"min": None, "mean": None, "median": None, "max": None, "unit": "docs/s"},
-                 "latency": {}, "service_time": {}, "processing_time": {}, "error_rate": None, "duration": 1000} for e in E}
+    tasks = {e: dict(task_record(nm, e), throughput={"min": None, "mean": None, "median": None, "max": None, "unit": "docs/s"},
+                     latency={}, service_time={}, processing_time={}, error_rate=None, duration=1000) for e in E}
     jobs = {e: {"job": "j%d" % e, "min": None, "mean": None, "median": None, "max": None, "unit": "ms"} for e in E}
     for i, slot in enumerate(slots):
         g, e, k, s = slot["g"], slot["e"], slot["k"], slot["s"]
@@ -172,8 +187,9 @@ def build_results(slots, R, D):
             d = tasks[e][g]
             if d:
                 d["mean"] = sum(v for kk, v in d.items() if kk not in ("unit",)) / max(1, len(d) - 1)
-        res["op_metrics"].append(tasks[e])
         res["ml_processing_time"].append(jobs[e])
+    # the order in which the task records are stored is part of the naming mode
+    res["op_metrics"] = [tasks[e] for e in (reversed(E) if nm["rev"] else E)]
     return res
 
 
@@ -225,11 +241,12 @@ def over_d(x, D):
 
 
 class Runner:
-    def __init__(self, slots, root):
+    def __init__(self, slots, root, naming=None):
         from esrally import config, metrics, reporter
         from esrally.utils import console
 
         self.slots = slots
+        self.naming = naming or [PLAIN_NAMING]
         self.by_label = {label(s): i + 1 for i, s in enumerate(slots)}
         if len(self.by_label) != len(slots):
             raise tlc.MachineryError("slot labels are not unique")
@@ -301,8 +318,8 @@ class Runner:
     def run(self, B, C, proc, D):
         """One `esrally compare`: returns the item fields for TraceCompare.tla."""
         cfg = self.cfg(proc)
-        self.store(cfg, "baseline", build_results(self.slots, B, D))
-        self.store(cfg, "contender", build_results(self.slots, C, D))
+        self.store(cfg, "baseline", build_results(self.slots, B, D, self.naming))
+        self.store(cfg, "contender", build_results(self.slots, C, D, self.naming))
         store = self.metrics.race_store(cfg)
         r1, r2 = store.find_by_race_id("baseline"), store.find_by_race_id("contender")
         bs, cs = self.metrics.GlobalStats(r1.results), self.metrics.GlobalStats(r2.results)
